@@ -143,6 +143,7 @@ struct Cfg {
   bool writeUpdate = false;                // write update image
   int denFile = 0;                         // precomputed denominator: 0 computed, 1 read from the file a reference run saved, 2 a file of another geometry
   std::string denPath;
+  int uShift = 0;                          // upper bound additionally times 2^uShift (efficiency-scaled instances)
 };
 static const char* prior_types[] = { "quadratic", "logcosh", "rdp" };
 static const char* filter_names[] = { "none", "median001", "median011", "median111" };
@@ -269,7 +270,7 @@ static void configure(Engine& e, const Sys& s, const Cfg& c, const std::string& 
     r.parse(in);
   } else {
     r.set_relaxation(alpha, gamma);
-    r.set_upper_bound(c.uInf ? (double)NumericInfo<float>().max_value() : std::ldexp((double)c.uN, -c.uK));
+    r.set_upper_bound(c.uInf ? (double)NumericInfo<float>().max_value() : std::ldexp((double)c.uN, -c.uK + c.uShift));
   }
 }
 
@@ -303,7 +304,7 @@ static void emit_config(vh::Trace& tr, const Sys& s, const Cfg& c, const Matrix&
       .str("filter", filter_names[c.filter]).num("filterInt", c.filterInt).boolean("post", c.post).boolean("viaParse", c.viaParse)
       .boolean("additive", c.additive).boolean("enforcePos", c.enforcePos)
       .str("priorType", prior_types[c.priorType]).boolean("randomise", c.randomise).boolean("writeUpdate", c.writeUpdate)
-      .str("denFile", c.denFile == 0 ? "none" : c.denFile == 1 ? "own" : "wrong");
+      .str("denFile", c.denFile == 0 ? "none" : c.denFile == 1 ? "own" : "wrong").num("uShift", c.uShift);
   tr.emit(j);
 }
 
@@ -374,7 +375,7 @@ static bool run_once(vh::Trace& tr, const Sys& s, Engine& e, const Cfg& c, const
           .num("kl", sc.kl).num("kg", sc.kg);
       put_fx(j, "lam0", "ex0", *e.lam0, sc.kl);
       j.arr("b0", bits_of(*e.lam0));
-      if (e.est) put_fx(j, "est", "exe", *e.est, sc.kl);
+      if (e.est) { put_fx(j, "est", "exe", *e.est, sc.kl); j.arr("be", bits_of(*e.est)); }
       if (e.grad) put_fx(j, "g", "exg", *e.grad, sc.kg);
       put_fx(j, "lam1", "ex1", *e.lam1, sc.kl);
       j.arr("b1", bits_of(*e.lam1));
@@ -493,7 +494,7 @@ static bool exact_instance(vh::Trace& tr, const Sys& s, vh::Rng& rng, long i, co
     for (int v = 0; v < nv; ++v) worst = std::max(worst, 2 * c.beta * weight_sum(s, c, s.vox[v][0], s.vox[v][1] + s.ny / 2, s.vox[v][2] + s.nx / 2));
     if (worst <= 126) break;
   }
-  const int k = rng.range(1, 3 * c.N + (rng.range(0, 3) == 0 ? 4 * c.N : 0));   // the sub-iteration performed
+  const int k = rng.range(0, 3) == 0 ? 1 : rng.range(1, 3 * c.N + (rng.range(0, 3) == 0 ? 4 * c.N : 0));   // the sub-iteration performed
   pick_relaxation(rng, c, k / c.N);
   static const int ubs[][2] = { { 4, 0 }, { 5, 1 }, { 3, 0 }, { 1, 0 }, { 8, 0 }, { 13, 2 }, { 0, 0 } };
   c.uInf = rng.range(0, 2) == 0;
@@ -620,7 +621,8 @@ static bool exact_instance(vh::Trace& tr, const Sys& s, vh::Rng& rng, long i, co
   if (rng.range(0, 3) == 0) run_once(tr, s, e, c, "single", k - 1, k, k, *image_from(s, lf), sc, false, false);
   remove_outputs(e, k);
   // scale clause (no prior): data, additive term, image and upper bound times 2^j - the same sub-iteration on a fresh object
-  if (!c.prior && rng.coin()) {
+  const int scaling = c.prior ? 0 : rng.range(0, 2);   // 0 none, 1 data scaled, 2 efficiencies scaled
+  if (scaling == 1) {
     const int j = rng.range(1, 2);
     Cfg c2 = c;
     c2.id = c.id + 1000000;
@@ -629,12 +631,34 @@ static bool exact_instance(vh::Trace& tr, const Sys& s, vh::Rng& rng, long i, co
     std::vector<float> yf2(nb), af2(nb), lf2(nv);
     for (int b = 0; b < nb; ++b) { d2.yq[b] <<= j; d2.a[b] <<= j; yf2[b] = d2.yq[b] / 4.F; af2[b] = (float)d2.a[b]; }
     for (int v = 0; v < nv; ++v) lf2[v] = (float)(d.lam[v] << j);
-    tr.emit(vh::Json("ScaleOf").num("cfg", c.id).num("by", j));
+    tr.emit(vh::Json("ScaleOf").num("cfg", c.id).num("by", j).str("mode", "data"));
     emit_config(tr, s, c2, m);
     tr.emit(vh::Json("Data").num("cfg", c2.id).arr("yq", d2.yq).arr("a", d2.a));
     Engine e2;
     make_engine(e2, s, m, yf2, af2, c.additive, scratch);
     if (!vh::threw([&] { configure(e2, s, c2, scratch); }, &msg)) run_once(tr, s, e2, c2, "single", k - 1, k, k, *image_from(s, lf2), sc, false, false);
+    remove_outputs(e2, k);
+  }
+  // efficiency scale clause (no prior): bin efficiencies times 2^-j (normalisation factors 2^j), image, additive term and upper
+  // bound times 2^j, data unchanged - the mean of the data is unchanged, the same sub-iteration on a fresh object
+  if (scaling == 2) {
+    static const int js[] = { 1, -1, 2, -3, 10, -10, 20, -20, 30, -30, 40, -40 };
+    const int j = js[rng.range(0, 11)];
+    Cfg c2 = c;
+    c2.id = c.id + 2000000;
+    c2.uShift = j;
+    c2.viaParse = false;       // (a decimal rendering of U 2^40 would not be exact)
+    c2.writeUpdate = false;
+    std::vector<float> af2(nb), lf2(nv), nf(nb, std::ldexp(1.F, j));
+    for (int b = 0; b < nb; ++b) af2[b] = std::ldexp((float)d.a[b], j);
+    for (int v = 0; v < nv; ++v) lf2[v] = std::ldexp((float)d.lam[v], j);
+    tr.emit(vh::Json("ScaleOf").num("cfg", c.id).num("by", j).str("mode", "eff"));
+    emit_config(tr, s, c2, m);
+    tr.emit(vh::Json("Data").num("cfg", c2.id).arr("yq", d.yq).arr("a", d.a).num("aShift", j).num("effShift", -j));
+    Engine e2;
+    make_engine(e2, s, m, yf, af2, c.additive, scratch);
+    e2.inner->set_normalisation_sptr(shared_ptr<BinNormalisation>(new BinNormalisationFromProjData(make_pd(s, nf))));
+    if (!vh::threw([&] { configure(e2, s, c2, scratch); }, &msg)) run_once(tr, s, e2, c2, "scaled", k - 1, k, k, *image_from(s, lf2), sc, false, false);
     remove_outputs(e2, k);
   }
   return true;
